@@ -744,11 +744,11 @@ class CeiloChunk(AbstractChunk):
             prelim_groups.drop(index=idx, inplace=True)
             # resetting because we must not have index gaps in the next iteration
             prelim_groups.reset_index(drop=True, inplace=True)
-            # now we recalculate the base height for the merged supergroup
-            data_idxer = self.data['group_id'] == prelim_groups['cluster_id'].iloc[idx - 1]
-            prelim_groups.iloc[
-                idx - 1, prelim_groups.columns.get_loc('height_base')
-            ] = self._calculate_base_height_for_selection(data_idxer)
+            # now we recalculate the base heights -- the same way they get reported later on, i.e.
+            # honouring EXCLUDE_FOR_BASE_HEIGHT_CALC (only the merged supergroup actually changes)
+            prelim_groups = self._calculate_sligrolay_base_height(
+                'groups', prelim_groups, prelim_groups['cluster_id'].to_numpy()
+            )
             # as this changes base height, it is possible that we now are closer
             # to another group, so we have to continue iteratively.
             min_seps_grp = prelim_groups['height_base'].apply(self._get_min_sep_for_height)
